@@ -37,7 +37,8 @@ Proof.
     cbn in Ha. split; [exact Ha|]. split; [|intros; discriminate]. intros k' f' e' c' d' did' Heq. inversion Heq. subst. split; reflexivity.
   - unfold timer_new in H. cbn [fst snd] in H. inversion H; subst; clear H. in_cases Hj; discriminate.
   - inversion H; subst. contradiction.
-  - inversion H; subst. contradiction.
+  - inversion H; subst. destruct Hj as [<-|[]]; first [discriminate | reflexivity].
+  - match type of H with (if ?b then _ else _) = _ => destruct b end; inversion H; subst; contradiction.
   - destruct ((c_state (get_conn st k0) =? c_connectionClosed) || negb room); inversion H; subst; contradiction.
   - destruct (c_state (get_conn st k0) =? c_connectionActive); inversion H; subst; contradiction.
   - destruct (frameTypeFor (f_mt f0)); [|inversion H; subst; contradiction].
@@ -98,6 +99,7 @@ Proof.
     + left. rewrite (lookup_insert_neq key_eqb key_eqb_ok) by exact Hn. exact Hl.
   - apply Hsame. inversion H. reflexivity.
   - apply Hsame. inversion H. reflexivity.
+  - apply Hsame. match type of H with (if ?b then _ else _) = _ => destruct b end; inversion H; reflexivity.
   - apply Hsame. destruct ((c_state (get_conn st k) =? c_connectionClosed) || negb room); inversion H; reflexivity.
   - apply Hsame. destruct (c_state (get_conn st k) =? c_connectionActive); inversion H; reflexivity.
   - apply Hsame. destruct (frameTypeFor (f_mt f)); [|inversion H; reflexivity].
@@ -159,6 +161,7 @@ Proof.
   - unfold timer_new in H. cbn [fst snd] in H. inversion H. subst st1 pushed. cbn. lia.
   - eapply Hsame; [exact H|reflexivity].
   - eapply Hput; [exact H|reflexivity].
+  - match type of H with (if ?b then _ else _) = _ => destruct b end; [eapply Hput; [exact H|reflexivity]|eapply Hsame; [exact H|reflexivity]].
   - destruct ((c_state (get_conn st k) =? c_connectionClosed) || negb room); eapply Hsame; try exact H; reflexivity.
   - destruct (c_state (get_conn st k) =? c_connectionActive); [eapply Hput; [exact H|reflexivity]|eapply Hsame; [exact H|reflexivity]].
   - destruct (frameTypeFor (f_mt f)); [|eapply Hsame; [exact H|reflexivity]].
@@ -234,7 +237,8 @@ Proof.
   - unfold timer_new in H. cbn [fst snd] in H. inversion H; subst; clear H. in_cases Hj; discriminate.
   - unfold timer_new in H. cbn [fst snd] in H. inversion H; subst; clear H. in_cases Hj; discriminate.
   - inversion H; subst. contradiction.
-  - inversion H; subst. contradiction.
+  - inversion H; subst. destruct Hj as [<-|[]]; first [discriminate | reflexivity].
+  - match type of H with (if ?b then _ else _) = _ => destruct b end; inversion H; subst; contradiction.
   - destruct ((c_state (get_conn st k) =? c_connectionClosed) || negb room); inversion H; subst; contradiction.
   - destruct (c_state (get_conn st k) =? c_connectionActive); inversion H; subst; contradiction.
   - right. destruct (frameTypeFor (f_mt f)) as [ft|] eqn:Eft; [|inversion H; subst; contradiction].
@@ -468,7 +472,8 @@ Proof.
       apply set_thread_in in Hin. destruct Hin as [[-> ->]|[_ Hin]]; [destruct Hj as [Hj|[]]; discriminate|].
       eapply (tp_addorig _ HP); eassumption.
   - (* LGc *)
-    destruct (mem_key t (gcs st)); [|discriminate]. inversion H. subst.
+    destruct (mem_key t (gcs st)) eqn:Emem; [|discriminate]. inversion H. subst.
+    gc_delete HI.
     destruct (items_delete (set_gcs st (remove_one t (gcs st))) t) as [st' g] eqn:E. cbn [fst].
     apply items_delete_spec in E. cbn [set_gcs conns gcs threads cblog sent seen next_call items] in E.
     destruct E as (Hc&_&A&_&_&_&_&D).
@@ -557,7 +562,8 @@ Proof.
   - unfold timer_new in H. cbn [fst snd] in H. inversion H; subst; clear H. in_cases Hj; kt.
   - unfold timer_new in H. cbn [fst snd] in H. inversion H; subst; clear H. in_cases Hj; kt.
   - inversion H; subst. contradiction.
-  - inversion H; subst. contradiction.
+  - inversion H; subst. destruct Hj as [<-|[]]. kt.
+  - match type of H with (if ?b then _ else _) = _ => destruct b end; inversion H; subst; contradiction.
   - destruct ((c_state (get_conn st k) =? c_connectionClosed) || negb room); inversion H; subst; contradiction.
   - destruct (c_state (get_conn st k) =? c_connectionActive); inversion H; subst; contradiction.
   - destruct (frameTypeFor (f_mt f)); [|inversion H; subst; contradiction].
@@ -603,7 +609,8 @@ Proof.
   - unfold timer_new in H. cbn [fst snd] in H. inversion H; subst; clear H. in_cases Hj; try exact I.
     cbn. intro X. discriminate.
   - inversion H; subst. contradiction.
-  - inversion H; subst. contradiction.
+  - inversion H; subst. destruct Hj as [<-|[]]; first [discriminate | reflexivity].
+  - match type of H with (if ?b then _ else _) = _ => destruct b end; inversion H; subst; contradiction.
   - destruct ((c_state (get_conn st k) =? c_connectionClosed) || negb room); inversion H; subst; contradiction.
   - destruct (c_state (get_conn st k) =? c_connectionActive); inversion H; subst; contradiction.
   - destruct (frameTypeFor (f_mt f)); [|inversion H; subst; contradiction].
@@ -955,6 +962,7 @@ Proof.
   - (* LGc *)
     unfold held_next. cbn [actor].
     destruct (mem_key t (gcs st)) eqn:Emem; [|discriminate]. inversion H. subst.
+    gc_delete HI.
     destruct (items_delete (set_gcs st (remove_one t (gcs st))) t) as [st' g] eqn:E. cbn [fst].
     apply items_delete_spec in E. cbn [set_gcs conns gcs threads cblog sent seen next_call items] in E.
     destruct E as (Hc&_&A&_&_&_&_&D).
